@@ -109,6 +109,22 @@ def build_registry(with_messages=False):
     # protocol messages, as far as dispatch is concerned: only their class matters (no fields are modelled)
     import skepticoin.networking.local_peer  # noqa: the repository's modules import each other in a cycle
     import skepticoin.networking.messages as msg
+    import skepticoin.networking.remote_peer as rp
+    # a waiting-for-reconnection record: plain data (host, port, direction, time of the last attempt, failure count)
+    ci = reg.declare(rp.DisconnectedRemotePeer, [('host', STR), ('port', INT), ('direction', STR),
+                                                 ('last_connection_attempt', OPT(INT)), ('ban_score', INT)])
+    ci.param_field = {'host': 'host', 'port': 'port', 'direction': 'direction',
+                      'last_connection_attempt': 'last_connection_attempt', 'ban_score': 'ban_score'}
+    # an announced peer and the two attributes of its address the handler reads (ipaddress objects, as plain records)
+    import ipaddress
+    c4 = reg.declare(ipaddress.IPv4Address, [('exploded', STR)])
+    c4.param_field = {}
+    c4.no_invariant = True
+    c6 = reg.declare(ipaddress.IPv6Address, [('ipv4_mapped', OPT(CLS('IPv4Address')))])
+    c6.param_field = {}
+    c6.no_invariant = True
+    cp = reg.declare(msg.Peer, [('last_seen_at', INT), ('ip_address', CLS('IPv6Address')), ('port', INT)])
+    cp.param_field = {'last_seen_at': 'last_seen_at', 'ip_address': 'ip_address', 'port': 'port'}
     for k in (msg.HelloMessage, msg.GetBlocksMessage, msg.InventoryMessage, msg.GetDataMessage, msg.DataMessage,
               msg.GetPeersMessage, msg.PeersMessage):
         ci = reg.declare(k, [], msg.Message)
